@@ -17,7 +17,11 @@ def sxV : Sx → Option V
   | .node [.atom "r", .atom q] => (parseRat q).map V.rest
   | .node [.atom "s", .atom s] => some (.str s)
   | .node [.atom "b", .atom b] => some (.bool (b == "1"))
-  | .node (.atom "sc" :: xs) => (xs.mapM fun (x : Sx) => match x with | Sx.atom a => a.toInt? | _ => none).map V.scale
+  | .node (.atom "sc" :: xs) => (xs.mapM fun (x : Sx) => match x with | Sx.atom a => a.toInt? | _ => none).map (V.scale · 12)
+  | .node (.atom "sct" :: .atom spo :: xs) => do
+    let n ← spo.toNat?
+    let l ← xs.mapM fun (x : Sx) => match x with | Sx.atom a => a.toInt? | _ => none
+    some (V.scale l n)
   | .atom "none" => some .none
   | _ => none
 
